@@ -19,7 +19,10 @@ GROUPSETS = {
     "mixed": [("a", "merge", [1, 2], False), ("b", "plain", [3], True), ("c", "plain", [4], False)],
     "merge_first": [("m", "merge", [2, 3], False), ("one", "plain", [1], False)],
     "list_form": [("group_0", "plain", [1], False), ("group_1", "plain", [2, 3, 4], False)],
+    # label values beyond one byte (voxel domain {0, 1, 256, 512}): single-instance group 256, plain group {1, 512}
+    "wide_labels": [("a", "plain", [1, 512], False), ("organ", "plain", [256], True)],
 }
+WIDE = [0, 1, 256, 512]
 META = {
     "bounds": {"quick": "label maps 1-D 2-3 voxels per array with labels 0..4 (-1..4 for signed semantic input); four group definitions (plain / merge / single-instance / list form); input types semantic (int64, uint8), unmatched, matched",
                "thorough": "1-D 4 voxels (3 for signed input)"},
@@ -34,6 +37,8 @@ def cases(tier):
     out = []
     for gs in GROUPSETS:
         for it, dt in (("SEMANTIC", "int64"), ("SEMANTIC", "uint8"), ("UNMATCHED_INSTANCE", "uint8"), ("MATCHED_INSTANCE", "uint16")):
+            if gs == "wide_labels" and dt == "uint8":
+                dt = "int32" if it == "SEMANTIC" else "uint16"
             if tier == "quick":
                 # 3 voxels per array for the richest group set, 2 for the others
                 n = 3 if (gs == "mixed" and it == "UNMATCHED_INSTANCE") else 2
@@ -56,9 +61,14 @@ def run_case(case):
     pv = [z3.Int("p%d" % i) for i in range(n)]
     rv = [z3.Int("r%d" % i) for i in range(n)]
     base = []
+    wide = case["groupset"] == "wide_labels"
     for v in pv + rv:
-        declare_bounds(v, lo, 4)
-        base.append(z3.And(v >= lo, v <= 4))
+        if wide:
+            declare_bounds(v, 0, 512)
+            base.append(z3.Or([v == x for x in WIDE]))
+        else:
+            declare_bounds(v, lo, 4)
+            base.append(z3.And(v >= lo, v <= 4))
     calls = []
 
     class Dummy:
@@ -90,7 +100,7 @@ def run_case(case):
         del calls[:]
         pa = SArr(list(pv), dt).protect("caller prediction")
         ra = SArr(list(rv), dt).protect("caller reference")
-        ev = PE.Panoptica_Evaluator(expected_input=getattr(PP.InputType, it), segmentation_class_groups=mkgroups(), decision_metric=None)
+        ev = PE.Panoptica_Evaluator(expected_input=getattr(PP.InputType, it), segmentation_class_groups=mkgroups(), decision_metric=T.panoptica.Metric.IOU, decision_threshold=0.5)
         undefined = z3.Or([z3.And(v != 0, z3.And([v != l for l in defined])) for v in pv + rv])
         try:
             out = ev.evaluate(pa, ra, verbose=False)
@@ -125,9 +135,11 @@ def run_case(case):
             h.ok("group_sees_exactly_its_labels", z3.And([a == restrict(v) for a, v in zip(pc, pv)] + [a == restrict(v) for a, v in zip(rc, rv)]), detail={"group": name})
             want_cls = "MatchedInstancePair" if (single and it != "MATCHED_INSTANCE") else {"SEMANTIC": "SemanticPair", "UNMATCHED_INSTANCE": "UnmatchedInstancePair", "MATCHED_INSTANCE": "MatchedInstancePair"}[it]
             h.ok("group_pair_class", type(pair).__name__ == want_cls, detail={"group": name, "class": type(pair).__name__})
+            thr = kw.get("decision_threshold")
             if single and it != "MATCHED_INSTANCE":
-                thr = kw.get("decision_threshold")
                 h.ok("single_instance_ignores_threshold", thr == 0.0, detail={"thr": repr(thr)})
+            else:
+                h.ok("group_gets_the_configured_decision_threshold", thr == 0.5, detail={"group": name, "thr": repr(thr)})
         h.note_nontrivial(str(sorted({str(z3.simplify(x)) for x in ENG.path})[:6]))
         h.witness(expect={"raises": False})
     return explore_case(h, body, base=base, time_budget=3000)
@@ -157,7 +169,7 @@ def real_groups(case, mode, expect):
     defined = {l for _, _, labels, _ in gs for l in labels}
     undefined = any(int(v) != 0 and int(v) not in defined for v in list(pred) + list(ref))
 
-    def mk(itype, groups=None, thr=None):
+    def mk(itype, groups=None, thr=0.5):
         return Panoptica_Evaluator(expected_input=getattr(InputType, itype), instance_approximator=ConnectedComponentsInstanceApproximator(), instance_matcher=NaiveThresholdMatching(),
                                    segmentation_class_groups=groups, instance_metrics=[Metric.DSC, Metric.IOU], global_metrics=[Metric.DSC],
                                    decision_metric=None if thr is None else Metric.IOU, decision_threshold=thr)
@@ -182,7 +194,7 @@ def real_groups(case, mode, expect):
             rr = np.where(np.isin(r0, labels), 1 if kind == "merge" else r0, 0).astype(dt)
             try:
                 if single and it != "MATCHED_INSTANCE":
-                    want = mk("MATCHED_INSTANCE", None, 0.0).evaluate(rp.astype(np.uint8), rr.astype(np.uint8), verbose=False)["ungrouped"][0]
+                    want = mk("MATCHED_INSTANCE", None, 0.0).evaluate(rp.astype(np.uint32), rr.astype(np.uint32), verbose=False)["ungrouped"][0]
                 else:
                     want = mk(it).evaluate(rp, rr, verbose=False)["ungrouped"][0]
             except Exception as e:
